@@ -32,7 +32,7 @@ def name_of(v):
 def steps_of(op):
     k = op["op"]
     out = op["out"]
-    if k in ("get", "probe", "attr"):
+    if k in ("get", "probe", "attr", "cur"):
         return [("obs", k, out)]
     if k == "set":
         if out == "ok":
